@@ -242,6 +242,11 @@ _amend("C10", "text", "(R10.1-R10.8,", "(R10.1-R10.9,")
 _amend("C10", "text", "Decides eight structural clauses", "Decides nine structural clauses")
 _amend("C19", "text", "(R19.1-R19.14,", "(R19.1-R19.15,")
 
+_amend("C01", "text", "(R01.1-R01.19,", "(R01.1-R01.22,")
+_amend("C01", "text", "Decides nineteen structural", "Decides twenty-two structural")
+_amend("C01", "text", "only past items without initializer. Does not decide", "only past items without initializer; the zero test of numeric literals knows the digits of each literal kind; a lone class declaration is dropped only when defining it has no side effects (one known finding, R01.22: `return a,b,void 0` at the end of a function keeps returning b — pinned by the suite). Does not decide")
+_amend("C09", "text", "(R09.1, R09.3-R09.11, DESIGN.md §4 C09):", "(R09.1, R09.3-R09.12, DESIGN.md §4 C09; R09.12 reports two known findings: an optional chain through a tagged template, pinned by the suite):")
+
 
 NOT_APPLICABLE = {
  "C18": "DataURI/Mediatype correctness is about decoded byte values and length comparisons between encodings; no structural clause separates a right "
